@@ -1,6 +1,6 @@
 /- Line-protocol handler for the Python-boundary state machine (C18): op `boundary`.
 
-`boundary <fuel> [current|fixed] (func…) ((name val)…) (op…)` with
+`boundary <fuel> [current|legacy] (func…) ((name val)…) (op…)` with
   op ::= (call <name> <ctx|_> (arg…)) | (callt <j> <ctx|_> (arg…)) | (transform <name>) | (mutate <k> <i> (n <num>))
 `val`/`arg` are the value S-expressions of `eval` (`(n …) (b …) (t …) (l …)`); `callt j` calls the j-th
 transformed copy.  Output: the observations of the calls, in order, joined by ` | `. -/
@@ -67,14 +67,14 @@ def boundaryRun (fuel : String) (π : Policy) (funcs globs ops : List Sexp) : St
     let P : Prog := { defs := fs, globals := env, pyHeap := μ, policy := π }
     " | ".intercalate ((observe P (fuel.toNat?.getD 1000) State.init os).filterMap showObs)
 
-/-- `boundary <fuel> [current|fixed] (func…) ((name val)…) (op…)`; without a policy word the model's claim
+/-- `boundary <fuel> [current|legacy] (func…) ((name val)…) (op…)`; without a policy word the model's claim
 about the code as it is (`Policy.current`) is used -/
 def boundaryLine (s : String) : String :=
   match readSexps s with
   | .error e => s!"bad-args {e}"
   | .ok [.atom fuel, .list funcs, .list globs, .list ops] => boundaryRun fuel Policy.current funcs globs ops
   | .ok [.atom fuel, .atom pol, .list funcs, .list globs, .list ops] =>
-    boundaryRun fuel (if pol == "fixed" then Policy.fixed else Policy.current) funcs globs ops
+    boundaryRun fuel (if pol == "legacy" then Policy.legacy else Policy.current) funcs globs ops
   | .ok _ => "bad-args shape"
 
 end Fpy.Drv.C18
